@@ -12,7 +12,14 @@ pub fn prog_case(em: &mut Emitter, sid: u32, mode: u8, ps: &[Prog], data: &[u8],
     let mut code = Vec::new(); enc_progs(ps, &mut code);
     em.case(sid, &[num_arg(mode), ints_of(&code), bytes_arg(data)], || {
         let obs = run_slice(mode, ps, data);
-        let o = oracle(&obs);
+        let mut o = oracle(&obs);
+        // the same program on sources that hand out only what was asked for / grow in small chunks
+        if matches!(o, Oracle::Pass) {
+            let k = 1 + (data.len() + code.len()) % 5;
+            if run_flex(mode, ps, data, crate::sources::Policy::Exact) != obs || run_flex(mode, ps, data, crate::sources::Policy::Chunk(k)) != obs {
+                o = Oracle::Fail("outcome-depends-on-how-the-source-delivers".into());
+            }
+        }
         (ints_of(&obs), o, nt)
     });
 }
@@ -100,6 +107,17 @@ pub fn run(em: &mut Emitter, rng: &mut Rng, thorough: bool) {
                     Some(1) => if ref_parse_seq(mode, &d2, Ctx::Top, 0).is_some() { Oracle::Fail("rejects-well-formed".into()) } else { Oracle::Pass },
                     _ => Oracle::Fail("panic".into()),
                 }
+            }, true);
+        }
+        // (b'') value by value, each announced by its own tag (tagged reads of well-formed input succeed,
+        // whatever the identifier length and however the source delivers)
+        if ctx == Ctx::Top && !forest.is_empty() && forest.len() <= 6 {
+            let ps: Vec<Prog> = forest.iter().map(|n| { let (c, t) = match n { Node::Prim { cls, num, .. } => (*cls, *num), Node::Cons { cls, num, .. } => (*cls, *num) };
+                Prog::Take { opt: rng.bool(), kind: 0, exp: Some((c, t)), body: Body::Generic } }).collect();
+            prog_case(em, 201, mode, &ps, &data, move |obs| match obs.first() {
+                Some(0) => if obs[1] == 0 { Oracle::Pass } else { Oracle::Fail("tagged-reads-left-octets-behind".into()) },
+                Some(1) => Oracle::Fail("rejects-well-formed".into()),
+                _ => Oracle::Fail("panic".into()),
             }, true);
         }
         // (b') inside a parent: read exactly the k values it contains and return, without
